@@ -39,7 +39,7 @@ type PkgSpec struct {
 }
 
 type Step struct {
-	K       string `json:"k"`   // edit-src edit-src-same edit-c edit-h edit-embed edit-decl edit-link tag x abi env cenv cflags repro build noop clear crash fserr
+	K       string `json:"k"`   // edit-src edit-src-same edit-c edit-h edit-embed edit-decl edit-link tag x abi opt env cenv cflags repro build noop clear crash fserr
 	Pkg     int    `json:"pkg"` // package index for edits
 	Arg     int    `json:"arg,omitempty"`
 	Torn    bool   `json:"torn,omitempty"`
@@ -92,11 +92,16 @@ func battery(clock string, embed, ext bool) *Scenario {
 	b := Step{K: "build"}
 	n := Step{K: "noop"} // a rebuild without any change: it reuses what the build before it left in the cache
 	sc.Steps = []Step{{K: "crash", Pkg: 2, Target: "lib-manifest"}, b, n, // the very first build dies between the archive and the manifest of the link-argument package
+		{K: "opt", Arg: 1}, b, // -O0: the optimisation level reaches every C compilation (__OPTIMIZE__) and every package's key
+		{K: "opt", Arg: 2}, b, // -Oz
+		{K: "opt", Arg: 0}, b, // back to the default level: the archives of the first build must not have been replaced by others
 		{K: "edit-src-same", Pkg: 3}, b, // shared leaf: both importers and their importers must follow
 		{K: "edit-c", Pkg: 2, Arg: 1}, b, // second C file
 		{K: "edit-c", Pkg: 2, Arg: 0}, b,
 		{K: "edit-src", Pkg: 1}, {K: "crash", Pkg: 1, Target: "manifest"}, b,
 		{K: "edit-c", Pkg: 2, Arg: 1}, {K: "crash", Pkg: 2, Target: "manifest"}, b, n, // archive without manifest of a package with link arguments
+		{K: "edit-src", Pkg: 3}, {K: "race", Arg: 0}, b, n, // two builders of the same sources on one cache: both compile and publish the same entries
+		{K: "edit-c", Pkg: 2, Arg: 0}, {K: "race", Arg: 1 | 4, Target: "archive-write"}, b, n, // two builders under different tag settings; one of them is killed half-way through an archive
 		{K: "tag"}, b,
 		{K: "edit-src-same", Pkg: 2}, {K: "crash", Pkg: 2, Target: "archive"}, b,
 		n,
@@ -106,6 +111,7 @@ func battery(clock string, embed, ext bool) *Scenario {
 		{K: "edit-src-same", Pkg: 3}, {K: "fserr", Pkg: 3, Target: "manifest-write"}, b, n,
 		{K: "clear"}, {K: "fserr", Pkg: 2, Target: "lib-manifest-write"}, b, n, // disk full while the manifest of the link-argument package is written
 		{K: "clear"}, {K: "crash", Pkg: 2, Target: "lib-manifest-write"}, b, n, // killed there
+		{K: "clear"}, {K: "race", Arg: 2 | 4, Target: "manifest"}, b, n, // three builders on an empty cache, one killed between an archive and its manifest
 		{K: "abi", Arg: 1}, b,
 		{K: "repro"}, // the same sources compiled by two compiler processes: byte-identical intermediate code
 		{K: "abi", Arg: 2}, {K: "env", Arg: 1}, b, // LLGO_TRACE=1: every function announces itself; all packages must be recompiled
@@ -229,8 +235,10 @@ func (prop) Generate(rng *sim.Rng, tier string, runIndex int) driver.Scenario {
 			st = Step{K: "edit-embed", Pkg: pi}
 		case r == 9 && p.HasTag:
 			st = Step{K: "tag"}
-		case r == 10:
+		case r == 10 && rng.Bool():
 			st = Step{K: "abi", Arg: rng.Intn(3)}
+		case r == 10:
+			st = Step{K: "opt", Arg: rng.Intn(3)}
 		case r == 11:
 			st = Step{K: "noop"}
 		case r == 12:
@@ -255,7 +263,15 @@ func (prop) Generate(rng *sim.Rng, tier string, runIndex int) driver.Scenario {
 		if st.K != "noop" && st.K != "clear" && st.K != "crash" && st.K != "fserr" && st.K != "repro" {
 			// every edit is followed by a rebuild (possibly an interrupted one first)
 			targeted := false
-			if rng.Intn(4) == 0 {
+			if rng.Intn(5) == 0 {
+				// concurrent builders (2-3 processes, perhaps under another tag setting, perhaps one of them meeting a fault)
+				rs := Step{K: "race", Arg: rng.Intn(8)}
+				if rs.Arg&4 != 0 && rng.Bool() {
+					rs.Target = []string{"archive-write", "manifest-write", "archive", "manifest"}[rng.Intn(4)]
+				}
+				sc.Steps = append(sc.Steps, rs)
+				targeted = true
+			} else if rng.Intn(4) == 0 {
 				sc.Steps = append(sc.Steps, Step{K: []string{"crash", "fserr"}[rng.Intn(2)], Arg: rng.Range(0, 30), Torn: rng.Intn(3) == 0, FromEnd: true})
 			} else if rng.Intn(4) == 0 && strings.HasPrefix(st.K, "edit") {
 				// the build dies between publishing the edited package's archive and its manifest (or just before the archive)
@@ -298,6 +314,7 @@ type world struct {
 	st    []pkgState
 	tag   bool
 	abi   int
+	opt   int   // optimisation level: 0 default (-O2), 1 -O0, 2 -Oz; C side files see it as __OPTIMIZE__ / __OPTIMIZE_SIZE__
 	trace bool  // LLGO_TRACE=1
 	cdef  int   // C13_CDEF=-DC13K=<cdef> (0: variable unset)
 	gflag int   // CFLAGS=-DC13G=<gflag> (0: variable unset): reaches every C compilation
@@ -341,7 +358,7 @@ func (w *world) line(i int) string {
 	p, s := w.sc.Pkgs[i], w.st[i]
 	parts := []string{p.Name, fmt.Sprintf("src=v%04d", s.srcVer), "aux=23"}
 	if p.HasC {
-		c := s.cVal + 1000*w.gflag
+		c := s.cVal + 1000*w.gflag + 10000*[]int{1, 0, 2}[w.effOpt()]
 		if p.CDef {
 			c += 100 * w.cdef
 		}
@@ -389,6 +406,17 @@ func (w *world) expected() string {
 		sb.WriteString(w.line(i) + "\n")
 	}
 	return sb.String()
+}
+
+// effOpt is the optimisation level builds of this world run at: worlds with
+// embedded files are always built at -O0 (LLVM 14 cannot optimise what embed pulls in).
+func (w *world) effOpt() int {
+	for _, p := range w.sc.Pkgs {
+		if p.Embed {
+			return 1
+		}
+	}
+	return w.opt
 }
 
 // ---- writing the module --------------------------------------------------------------
@@ -576,12 +604,13 @@ func auxSum() int {
 func (w *world) cSource(i int) string {
 	p := w.sc.Pkgs[i]
 	src := "#ifndef C13K\n#define C13K 0\n#endif\n#ifndef C13G\n#define C13G 0\n#endif\n"
+	src += "#if defined(__OPTIMIZE_SIZE__)\n#define C13O 2\n#elif defined(__OPTIMIZE__)\n#define C13O 1\n#else\n#define C13O 0\n#endif\n"
 	if p.HasH {
 		src += "#include \"w.h\"\n"
 	} else {
 		src += "#define HOFF 0\n"
 	}
-	src += fmt.Sprintf("int %s_cval(void) { return %d + 100 * C13K + 1000 * C13G + HOFF; }\n", p.Name, w.st[i].cVal)
+	src += fmt.Sprintf("int %s_cval(void) { return %d + 100 * C13K + 1000 * C13G + 10000 * C13O + HOFF; }\n", p.Name, w.st[i].cVal)
 	return src
 }
 
@@ -650,12 +679,11 @@ type buildResult struct {
 // buildArgs is the llgo command line for the world's current configuration.
 func (w *world) buildArgs(out string) []string {
 	args := []string{"build", "-v", "-o", out}
-	anyEmbed := false
-	for _, p := range w.sc.Pkgs {
-		anyEmbed = anyEmbed || p.Embed
-	}
-	if anyEmbed {
-		args = append(args, "-O0") // LLVM 14 cannot optimise the packages embed pulls in
+	switch w.effOpt() {
+	case 1:
+		args = append(args, "-O0")
+	case 2:
+		args = append(args, "-Oz")
 	}
 	// a first tag that selects nothing is always present, so that the interesting
 	// tag is the last of several
@@ -907,6 +935,7 @@ func (prop) Run(scx driver.Scenario, ch *sim.Choices, keep bool) *driver.Result 
 	sameMtime := false     // the most recent edit left size and mtime of the file unchanged
 	pendingFault := Step{} // crash/fserr to apply to the next build
 	afterFault := false
+	afterRace := false // the cache holds what concurrent builders left
 	builds := 0
 	lastOps := 69 // cache operations of the most recent complete build
 	for si, st := range sc.Steps {
@@ -983,6 +1012,11 @@ func (prop) Run(scx driver.Scenario, ch *sim.Choices, keep bool) *driver.Result 
 			w.abi = st.Arg
 			lastEdit, sameMtime = st.K, false
 			w.logf("step %d: -abi %d", si, w.abi)
+		case "opt":
+			w.opt = st.Arg % 3
+			lastEdit, sameMtime = st.K, false
+			res.Probes["optimisation-level-changes"]++
+			w.logf("step %d: optimisation level %s", si, []string{"default (-O2)", "-O0", "-Oz"}[w.effOpt()])
 		case "env":
 			w.trace = st.Arg == 1
 			lastEdit, sameMtime = st.K, false
@@ -1059,6 +1093,12 @@ func (prop) Run(scx driver.Scenario, ch *sim.Choices, keep bool) *driver.Result 
 			w.logf("step %d: cache cleared (back to the warm template)", si)
 		case "crash", "fserr":
 			pendingFault = st
+		case "race":
+			var rtags []string
+			viol, detail, rtags = w.race(si, st, ch, res, mix)
+			tags = append(tags, rtags...)
+			builds += 2
+			afterRace = true
 		case "build", "noop":
 			crashAt, fserr := 0, 0
 			k := pendingFault.Arg
@@ -1159,6 +1199,9 @@ func (prop) Run(scx driver.Scenario, ch *sim.Choices, keep bool) *driver.Result 
 					if afterFault {
 						tags = append(tags, "after-injected-fault")
 					}
+					if afterRace {
+						tags = append(tags, "after-concurrent-builds")
+					}
 					break
 				}
 				viol, detail = "infra-build-failed", fmt.Sprintf("step %d: llgo build fails also with a clean cache: %s", si, lastLines(r2.buildLog, 6))
@@ -1170,6 +1213,8 @@ func (prop) Run(scx driver.Scenario, ch *sim.Choices, keep bool) *driver.Result 
 				cls := "stale-output"
 				if afterFault {
 					cls = "stale-output-after-crash"
+				} else if afterRace {
+					cls = "stale-output-after-concurrent-builds"
 				}
 				viol, detail = cls, fmt.Sprintf("step %d: the program built after %q %s", si, lastEdit, mm)
 				tags = append(tags, "last-edit:"+lastEdit, "clock:"+sc.Clock)
@@ -1181,6 +1226,7 @@ func (prop) Run(scx driver.Scenario, ch *sim.Choices, keep bool) *driver.Result 
 				res.Probes["noop-rebuilds"]++
 			}
 			afterFault = false
+			afterRace = false
 			sameMtime = false
 		}
 	}
@@ -1291,7 +1337,7 @@ func (prop) Shrink(scx driver.Scenario) []driver.Scenario {
 
 func (prop) Describe() driver.Description {
 	return driver.Description{
-		Rule: "a case is one history of 3-12 steps (edit one build input - Go source same/different size, C side file, embedded file, build tag, ABI mode, LLGO_TRACE, an environment variable expanded in a package's LLGoFiles compile flags - rebuild, two-process intermediate-code comparison, no-op rebuild, cache clear, build killed at cache operation k, disk error at cache operation k) on a generated module of 2-6 packages with a private build cache and a simulated file-time clock (normal, stalled, backwards, coarse); each build runs the real llgo and the built program; non-trivial: at least two builds; distinct = distinct hash of the (step, program output) sequence",
+		Rule: "a case is one history of 3-12 steps (edit one build input - Go source same/different size, C side file, embedded file, build tag, ABI mode, optimisation level, LLGO_TRACE, an environment variable expanded in a package's LLGoFiles compile flags - rebuild, two-process intermediate-code comparison, no-op rebuild, cache clear, build killed at cache operation k, disk error at cache operation k, 2-3 concurrent builder processes on the one cache interleaved at every cache operation) on a generated module of 2-6 packages with a private build cache and a simulated file-time clock (normal, stalled, backwards, coarse); each build runs the real llgo and the built program; non-trivial: at least two builds; distinct = distinct hash of the (step, program output) sequence",
 		Components: []driver.Component{
 			{Name: "llgo (cmd/llgo, internal/build, cl, ssa, runtime)", Real: true, What: "built from the working tree at every check"},
 			{Name: "internal/build cache.go, collect.go, createArchiveFile", Real: true, What: "file-system calls routed through a counting seam supplied by go build -overlay (kill / fail at operation k); logic unchanged"},
@@ -1301,11 +1347,11 @@ func (prop) Describe() driver.Description {
 		},
 		Assumptions: []string{
 			"byte-reproducibility of intermediate code is sampled, not simulated: a repro step runs two compiler processes on the same sources (fresh caches, different temporary directories) and compares every package's .ll byte for byte; the processes differ in Go's per-process map-iteration seed, which is outside any seam, so a difference is reported with the histories that showed it and is expected, not guaranteed, to recur on replay",
-			"of the environment variables in the cache key only LLGO_TRACE changes what a program does (every function announces itself); optimisation level and the debug variables do not change what a println program prints, so their staleness is not observable by this oracle",
+			"of the environment variables in the cache key only LLGO_TRACE changes what a program does (every function announces itself); the optimisation level is observable through the C side files only (__OPTIMIZE__ / __OPTIMIZE_SIZE__: -O2, -O0 and -Oz are told apart, -O1/-O3/-Os are not generated); the debug variables do not change what a println program prints, so their staleness is not observable by this oracle",
 			"a build that fails after an injected crash is an observation, not a violation",
-			"concurrent llgo processes sharing one cache are not interleaved",
+			"concurrent builders: a race step runs 2-3 llgo processes on one cache directory, parked at every cache operation and released one at a time by the run's PRNG; between two cache operations a process runs alone, so interleavings inside one cache operation (two writers inside one write system call) are not explored; edits while a build is running are not generated",
 		},
-		FaultKinds:  []string{"crash-during-build", "torn-write", "disk-error-during-build"},
+		FaultKinds:  []string{"crash-during-build", "torn-write", "disk-error-during-build", "race-kill", "race-torn-write-kill", "race-disk-error"},
 		Workers:     8,
 		QuickBudget: 100, ThoroughBudget: 2400,
 		RunTimeout: 3600, // a history is a dozen real compiler runs
